@@ -121,15 +121,15 @@ def run(ctx):
     rng = ctx.rng
     quick = ctx.tier == "quick"
     ctx.rule = ("observables on 1..3 ensembles x 1..3 replicas with contiguous / strided / gapped configuration lists sharing a common spacing (gap 1, 2, 5; replicas of one ensemble with different strides), given as "
-                "range / list / ndarray, lengths 5..48 (quick) / 5..300 (thorough); white, AR(1) (a = 0.5 .. 0.875), constant, alternating and two-level data; S in {0, 0.5, 1, 2, 3}, tau_exp in {0, 1, 5}, "
+                "range / list / ndarray, lengths 5..48 (quick) / 5..160 (thorough); white, AR(1) (a = 0.5 .. 0.875), constant, alternating and two-level data; S in {0, 0.5, 1, 2, 3}, tau_exp in {0, 1, 5}, "
                 "N_sigma in {0, 1, 2} given as argument / per-ensemble dictionary / global default; fft on and off (both judged against the same model value); mixed Monte-Carlo + covariance inputs for the totals")
     ctx.trusted += ["hand-written model Obs/Gamma.v tied to obs.py by correspondence", "np.fft is outside the model: the fft=True results are judged against the direct-sum model",
                     "Interval library (verified floating-point intervals, 80 bits) evaluates exp/ln/sqrt of the windowing function"]
     ctx.assumptions += ["tolerance 2^-30 relative; windowing decisions within 2^-30 of a sign change are skipped and counted (near tie)"]
     ctx.copy_props()
 
-    ncase = 120 if quick else 2500
-    nmax = 48 if quick else 300
+    ncase = 120 if quick else 1200
+    nmax = 48 if quick else 160          # exact pair sums cost O(n^2) big-number operations per lag: longer chains take tens of minutes per shard
     cases, tcases = [], []
     saved = (pe.Obs.S_global, pe.Obs.tau_exp_global, pe.Obs.N_sigma_global, dict(pe.Obs.S_dict), dict(pe.Obs.tau_exp_dict), dict(pe.Obs.N_sigma_dict))
     try:
